@@ -12,4 +12,16 @@ CLAIMED['C08'] = ('DESIGN.md 4/C08', 'Symbolic execution of calc_velo_and_disp_f
     'linearity and closed forms are polynomial identities decided structurally/by z3 for n<=10 (24 thorough); '
     'calc_peak = max|x| is decided for every x in R^n, n<=12 (24), and pga/pgv/pgd are shown to be calc_peak of the '
     'respective series.')
+CLAIMED['C09'] = ('DESIGN.md 4/C09', 'Symbolic execution of the seven cumulative-measure functions (SciPy quadrature executed for '
+    'real) on symbolic records (and symbolic dt / alpha where polynomial): length, monotonicity, the defining '
+    'quadrature, sign/scale/zero-padding laws decided for every record with n<=8 (16 thorough); CAVdp window '
+    'bookkeeping with concrete dt, every gate pattern a separate path.')
+CLAIMED['C10'] = ('DESIGN.md 4/C10', 'Crossing logic decided for EVERY cumulative measure (arbitrary symbolic array through the '
+    'documented im= hook) and every fraction pair 0<start<end<1 (n<=7), plus symbolic records through the real '
+    'sum-of-squares/Arias/CAV code for stated fraction pairs (n<=6), shift/scale relations and bracketed duration '
+    'with symbolic threshold and dt; each index set returned by np.where is a separate path.')
+CLAIMED['C20'] = ('DESIGN.md 4/C20', 'Symbolic execution of interp2d/interp_left (nodes, queries and table all symbolic; argmin/'
+    'searchsorted/where forks enumerate every bracketing case), rolling average (all windows/modes), step-fit error '
+    '(p=1,2, any sign of every mean) and the NZS 1170.5 functions with symbolic T,Z,N,R (x**0.75 encoded exactly as '
+    'an algebraic root); each clause decided by z3 within the stated sizes.')
 NOT_APPLICABLE = {}
